@@ -49,8 +49,10 @@ def _gen_writes(world: World, side: str, big_ok: bool) -> list[dict]:
     n = 1 + world.choose(f"{side}.nwrites", 4)
     out = []
     for i in range(n):
-        cls = world.choose(f"{side}.sizeclass", 5 if big_ok else 4)
-        size = [1, 1 + world.choose("sz", 64), 200 + world.choose("sz", 3000), 16384 + world.choose("sz", 100) - 50, 20000 + world.choose("sz", 30000)][cls]
+        cls = world.choose(f"{side}.sizeclass", 6 if big_ok else 4)
+        if cls == 5 and world.choose(f"{side}.huge", 3) != 2:
+            cls = 4  # "huge" (beyond the 256 KiB protocol buffer + link capacity) only in a third of the draws: it costs ms
+        size = [1, 1 + world.choose("sz", 64), 200 + world.choose("sz", 3000), 16384 + world.choose("sz", 100) - 50, 20000 + world.choose("sz", 30000), 300000 + world.choose("sz", 200000)][cls]
         out.append({"size": size, "iter": world.choose(f"{side}.iter", 3), "gap": world.choose(f"{side}.gap", 3)})
     return out
 
@@ -93,6 +95,7 @@ def _h_aio(world: World) -> None:
     shape = world.pick("shape", ["eager", "wtr", "mirror"])
     avoid = getattr(world, "avoid_known", True)
     caps = [1 << 20, 65536, 16384, 4096, 2048]
+    big = 4 << 20
     cap_l2p = caps[world.choose("cap_l2p", len(caps))]
     cap_p2l = caps[world.choose("cap_p2l", len(caps))]
     big_ok = True
@@ -101,17 +104,27 @@ def _h_aio(world: World) -> None:
     if avoid and shape in ("wtr", "mirror"):
         # open known finding D9 needs: both directions blocked by capacity at the same time.  Keep at least one
         # direction's total traffic below its link capacity so that the exact input class is not generated.
+        # (asyncio's transport keeps reading into the 256 KiB protocol buffer of the adapter until its high-water mark,
+        # so a direction only blocks once more than capacity + ~192 KiB is outstanding)
         tot_a = sum(w["size"] for w in a_writes) + 4096
         tot_b = sum(w["size"] for w in b_writes) + 4096
-        if tot_a > cap_l2p and tot_b > cap_p2l:
-            cap_l2p = 1 << 20
+        if tot_a > cap_l2p + 150000 and tot_b > cap_p2l + 150000:
+            cap_l2p = 4 << 20
     net = SimNet(world)
     backend = SimAsyncIOBackend(net)
     d_l2p = Delivery.draw(world, "l2p")
     d_p2l = Delivery.draw(world, "p2l")
-    for d in (d_l2p, d_p2l):
+    for d, tot in ((d_l2p, sum(w["size"] for w in a_writes)), (d_p2l, sum(w["size"] for w in b_writes))):
         if d.frag in (1, 3) and len(d.delays) > 2:
             d.delays = (0, 1)  # tiny fragments with long per-fragment delays only cost simulation time
+        # bound the number of link events per direction (~600 fragments): 1-byte fragments are for small transfers
+        floor = max(1, (tot + 1500) // 600)
+        if d.frag == 1 and floor > 1:
+            d.frag, d.size = 2, floor
+        elif d.frag in (2, 3) and d.size < floor:
+            d.size = floor
+        if tot > 100000:
+            d.delays = (0,)
     lib, psock = net.socketpair(capacity_ab=cap_l2p, capacity_ba=cap_p2l, delivery_ab=d_l2p, delivery_ba=d_p2l)
     if cap_l2p < (1 << 20) or cap_p2l < (1 << 20):
         world.fault("capacity_small")
@@ -259,6 +272,8 @@ def _h_sync(world: World) -> None:
         world.fault("delay")
     writes = _gen_writes(world, "A", True)
     A = [_payload(seed16, "A", i, w["size"]) for i, w in enumerate(writes)]
+    floor = max(1, (sum(len(x) for x in A) + 1500) // 600)
+    sizes = [max(x, floor) for x in sizes]
     peer = RealTLSPeer(world, server_side=not lib_server, version=version, sizes=sizes, delays=delays)
     world.notes.update(version=version, lib_server=lib_server, sizes=[len(x) for x in A], frag=sizes, delays=delays)
     echoed = {"n": 0}
